@@ -62,6 +62,30 @@ func shrink(b []byte, fails func([]byte) bool) []byte {
 	return cur
 }
 
+// warmUp runs every public entry point once over b
+func warmUp(b []byte) {
+	protect(func() string {
+		s := string(b)
+		u.StringWidth(s)
+		u.GraphemeClusterCount(s)
+		u.ReverseString(s)
+		u.HasTrailingLineBreak(b)
+		u.HasTrailingLineBreakInString(s)
+		for _, k := range []string{"fg", "fw", "fs", "fl", "st"} {
+			realChain(k, b, false)
+			realChain(k, b, true)
+		}
+		g := u.NewGraphemes(s)
+		for g.Next() {
+			g.Width()
+		}
+		return ""
+	})
+}
+
+// smallScope: the small-scope exhaustive streams are on (flag -small)
+var smallScope = true
+
 // monitors that also run on every byte string of length <= 5 (thorough: 6) over byteAlphabet
 var byteExhaustive = map[string]bool{"C05": true, "C06": true, "C09": true, "C10": true, "C12": true, "C14": true}
 
@@ -101,10 +125,13 @@ func runMonitor(prop string, m monitor, cs *caseSource, thorough bool) monitorRe
 		}
 		byteSequences(n, func(b []byte) { handle(-3, genCase{input: b, kind: "bytes", tplIdx: -1}) })
 	}
-	if thorough {
-		for _, alg := range []byte("GWSL") {
-			shortSequences(alg, 3, func(b []byte) { handle(-1, genCase{input: b, kind: "short", tplIdx: -1}) })
+	// small scope, exhaustive (see smallAlphabet): one symbol shorter than stage E5's in the quick tier
+	for _, alg := range []byte("GWSL") {
+		n, nFull := smallScopeLen(alg, thorough)
+		if !thorough {
+			n, nFull = n-1, nFull-1
 		}
+		shortSequences(alg, n, nFull, func(b []byte) { handle(-1, genCase{input: b, kind: "short", tplIdx: -1}) })
 	}
 	return res
 }
@@ -204,6 +231,7 @@ func main() {
 	n := flag.Int("n", 20000, "number of generated cases for E5 / monitors")
 	n6 := flag.Int("n6", 5000, "number of generated op sequences for E6")
 	amb := flag.Int("amb", 1, "value of EastAsianAmbiguousWidth for this process")
+	flag.BoolVar(&smallScope, "small", true, "run the small-scope exhaustive streams (stages E5, SPEC, monitors)")
 	only := flag.String("only", "", "restrict E5 to these ops (fg,fw,fs,fl,st,sts,sw,gcc,rev,htlb)")
 	corpus := flag.String("corpus", "/verif/corpus", "")
 	outPath := flag.String("out", "", "result JSON path (default stdout)")
@@ -236,8 +264,32 @@ func main() {
 
 	t0 := time.Now()
 	loadFacts(*factsPath)
-	u.EastAsianAmbiguousWidth = *amb
 	ci = scanClasses()
+	if !strings.Contains(*stages, "ALLOC") {
+		// warm-up under ANOTHER value of the configuration variable: whatever the package computes lazily and
+		// keeps (a width table built on first use, a memo) is then stale for the value this process runs with,
+		// and the comparisons with the model and the width specification expose it. (Not before the allocation
+		// stage, whose search counts the allocations of first calls.)
+		other := 2
+		if *amb != 1 {
+			other = 1
+		}
+		u.EastAsianAmbiguousWidth = other
+		var wb []byte
+		for _, r := range ci.oneRepPerSig() {
+			wb = appendRune(wb, r)
+			if len(wb) > 512 {
+				warmUp(wb)
+				wb = wb[:0]
+			}
+		}
+		warmUp(wb)
+		for r := rune(0); r < 0x3000; r++ {
+			wb = appendRune(wb[:0], r)
+			u.StringWidth(string(wb))
+		}
+	}
+	u.EastAsianAmbiguousWidth = *amb
 	initGen()
 	thorough := *tier == "thorough"
 	if *dumpRef != "" {
